@@ -121,6 +121,22 @@ partial def directiveCallsS (staticOf : Nat → Option String) : Stmt → Nat
   | .other _ _ _ bs => (bs.map (directiveCallsS staticOf)).sum
   | _ => 0
 
+/-- class predicate of known finding C04-param-annotation-call: number of calls inside parameter annotations -/
+partial def annotationCallsS : Stmt → Nat
+  | .functionDef _ _ as b _ _ _ =>
+      (match as with
+       | .arguments _ po ar va ko _ kw _ => ((po ++ ar ++ va ++ ko ++ kw).map callsE).sum
+       | _ => 0) + (b.map annotationCallsS).sum
+  | .classDef _ _ _ _ b _ => (b.map annotationCallsS).sum
+  | .for_ _ _ _ b e _ _ => ((b ++ e).map annotationCallsS).sum
+  | .while_ _ _ b e => ((b ++ e).map annotationCallsS).sum
+  | .if_ _ _ b e => ((b ++ e).map annotationCallsS).sum
+  | .with_ _ _ b _ => (b.map annotationCallsS).sum
+  | .try_ _ b h e f => ((b ++ h ++ e ++ f).map annotationCallsS).sum
+  | .handler _ _ _ b => (b.map annotationCallsS).sum
+  | .other _ _ _ bs => (bs.map annotationCallsS).sum
+  | _ => 0
+
 def run (f : Option String) : String := f.getD "bad-args"
 
 def handlers : List (String × (List Sexp → String)) := [
@@ -190,6 +206,11 @@ def handlers : List (String × (List Sexp → String)) := [
       match ← root? r with
       | .stmt s => pure (toString (Sexp.list ((NoNative.offenders cfg [s]).map offSexp)))
       | .expr x => pure (toString (Sexp.list ((NoNative.offE cfg [] false .normal x).map offSexp)))),
+  ("c04.annotation-calls", fun a => run do
+      let [r] := a | none
+      match ← root? r with
+      | .stmt s => pure (toString (annotationCallsS s))
+      | .expr _ => pure "0"),
   ("c04.directive-calls", fun a => run do
       let [r, an] := a | none
       let t ← parseAnnoTable an
